@@ -146,8 +146,11 @@ def rank_profiles(n, rmax=4):
 
 
 def close(a, b, scale, c=64.0):
-    """Scale-aware comparison: |a-b| <= c * eps * scale  (scale = sum of |terms| of the computation)."""
+    """Scale-aware comparison: |a-b| <= c * eps * scale  (scale = sum of |terms| of the computation).
+    Non-finite a or b never compare close (also not against an infinite scale)."""
     a, b, scale = np.asarray(a, dtype=float), np.asarray(b, dtype=float), np.asarray(scale, dtype=float)
+    if not (np.all(np.isfinite(a)) and np.all(np.isfinite(b))):
+        return False
     return bool(np.all(np.abs(a - b) <= c * np.finfo(float).eps * scale + 1e-300))
 
 
